@@ -10,7 +10,9 @@
 (*                         domain: polygons_3d treats non-convex polygons   *)
 (*                         wrongly by its own docstring) against every cell *)
 (*                         of a convex tiling (8 cubes / 6 Kuhn tetrahedra) *)
-(*                         of a box that contains it                        *)
+(*                         of a box that contains it; cubes of equal extent *)
+(*                         and boxes with extents 2, 4, 6 in every axis     *)
+(*                         order (cubic and non-cubic cells, mirrored too)  *)
 (* Model law LawCover: the inside intervals of a segment whose both end    *)
 (* points are strictly inside a CONVEX polygon are exactly {(0,1)}.        *)
 (***************************************************************************)
@@ -68,6 +70,35 @@ ShiftP(poly, d) == [i \in 1..Len(poly) |-> Add3(poly[i], d)]
 FaceInPlane(poly, face) == \A i \in 1..Len(face) : Height(poly, face[i], 1) = 0
 GenericPlane(poly, tiling) == \A c \in 1..Len(tiling) : \A f \in 1..Len(tiling[c]) : ~FaceInPlane(poly, tiling[c][f])
 
+\* ---- anisotropic ("tall") regions: a box with pairwise different extents 2, 4, 6 in every axis order, optionally
+\* mirrored through the origin, tiled by cubic cells (side 2) or by non-cubic cells of different sizes; small polygons in
+\* axis planes x_c = odd constant and in tilted planes, shifted through every third of every axis
+AxisPerms == <<<<1,2,3>>, <<1,3,2>>, <<2,1,3>>, <<2,3,1>>, <<3,1,2>>, <<3,2,1>>>>
+BreaksOf(kind, k) == IF kind = 1 THEN (IF k = 1 THEN <<0, 2>> ELSE IF k = 2 THEN <<0, 2, 4>> ELSE <<0, 2, 4, 6>>)
+                     ELSE (IF k = 1 THEN <<0, 2>> ELSE IF k = 2 THEN <<0, 1, 4>> ELSE <<0, 2, 6>>)
+GridCells(bx, by, bz, sg) ==
+  LET nx == Len(bx) - 1  ny == Len(by) - 1  nz == Len(bz) - 1
+  IN [k \in 1..(nx * ny * nz) |->
+        LET i == ((k - 1) % nx) + 1  j == (((k - 1) \div nx) % ny) + 1  l == ((k - 1) \div (nx * ny)) + 1
+        IN Box(sg * bx[i], sg * by[j], sg * bz[l], sg * bx[i + 1], sg * by[j + 1], sg * bz[l + 1])]
+TallTiling(pi, kind, sg) == GridCells(BreaksOf(kind, pi[1]), BreaksOf(kind, pi[2]), BreaksOf(kind, pi[3]), sg)
+SmallFlat == << << <<0,0>>, <<2,0>>, <<0,2>> >>, << <<1,0>>, <<2,1>>, <<1,2>>, <<0,1>> >>,
+                << <<0,1>>, <<2,0>>, <<1,2>> >>, << <<0,0>>, <<2,0>>, <<2,1>>, <<0,2>> >> >>
+\* flat point q placed with its first coordinate on axis a, second on axis b, constant cv on axis c (tilted: + q[2])
+Place(q, a, b, c, cv, sa, sb, tilt, sg) ==
+  [k \in 1..3 |-> sg * (IF k = a THEN q[1] + sa ELSE IF k = b THEN q[2] + sb ELSE cv + (IF tilt THEN q[2] ELSE 0))]
+PlacePoly(f, a, b, c, cv, sa, sb, tilt, sg) == [i \in 1..Len(SmallFlat[f]) |-> Place(SmallFlat[f][i], a, b, c, cv, sa, sb, tilt, sg)]
+AxisTriples == {<<1,2,3>>, <<1,3,2>>, <<2,3,1>>}            \* <<a, b, c>>
+\* <<axis order, tiling kind, mirror sign, <<a, b, c>>, flat polygon, constant on c, shift on a, shift on b, tilted>>
+TallCases ==
+  IF Big
+  THEN {w \in (1..6) \X {1, 2} \X {1, -1} \X AxisTriples \X (1..Len(SmallFlat)) \X (0..5) \X (0..4) \X (0..4) \X BOOLEAN :
+          /\ (w[9] => w[5] <= 2) /\ (w[5] + w[6] + w[7] + w[8]) % 3 = 0 /\ (w[3] = 1 \/ (w[1] + w[2]) % 2 = 0)}
+  ELSE {<<v[1], (v[1] % 2) + 1, IF v[1] % 3 = 0 THEN -1 ELSE 1, v[2], ((v[3] + v[4] + v[5]) % Len(SmallFlat)) + 1, v[3], v[4], v[5], FALSE>> :
+          v \in {u \in (1..6) \X AxisTriples \X (0..5) \X (0..4) \X (0..4) : (u[4] + u[5]) % 2 = 0}}
+TallPoly(w) == PlacePoly(w[5], w[4][1], w[4][2], w[4][3], w[6], w[7], w[8], w[9], w[3])
+TallCells(w) == TallTiling(AxisPerms[w[1]], w[2], w[3])
+
 VARIABLE inp
 Start == [fn |-> "start"]
 Init == inp = Start
@@ -82,6 +113,8 @@ Inputs(fn) ==
          {[fn |-> fn, poly |-> ShiftP(Poly3(fp), d), cells |-> Tilings[t]] :
              <<fp, t, d>> \in {w \in Poly3Ids \X (1..Len(Tilings)) \X Shifts :
                                  GenericPlane(ShiftP(Poly3(w[1]), w[3]), Tilings[w[2]]) /\ Covers(Tilings[w[2]], ShiftP(Poly3(w[1]), w[3])) /\ (Big \/ w[2] \in {1, 3})}}
+         \cup {[fn |-> fn, poly |-> TallPoly(w), cells |-> TallCells(w)] :
+                 w \in {v \in TallCases : Covers(TallCells(v), TallPoly(v)) /\ GenericPlane(TallPoly(v), TallCells(v))}}
     [] OTHER -> {}
 Next == inp = Start /\ \E fn \in Fns : inp' \in Inputs(fn)
 Spec == Init /\ [][Next]_inp
